@@ -161,24 +161,161 @@ for stmt in run.body:
     else:
         run_shape.append(ast.unparse(stmt))
 
-# ---- teardown chains ----------------------------------------------------------------------------------------
-def awaited(fn):
-    node = fn_ast(fn)
-    return [c for c in calls_in(node) if not c.startswith("logger.") and c not in ("super",)]
+# ---- Scanner.setup / teardown, UDSScanner.setup / teardown: statements in source order ---------------------------
+def _stmts(fn):
+    return [st for st in fn_ast(fn).body
+            if not isinstance(st, (ast.ImportFrom, ast.Import))
+            and not (isinstance(st, ast.Expr) and isinstance(st.value, ast.Constant))
+            and not (isinstance(st, ast.Expr) and calls_in(st) and all(c.startswith("logger.") for c in calls_in(st)))]
 
 
-scanner_td = awaited(base.Scanner.teardown)
-uds_td = awaited(cuds.UDSScanner.teardown)
-scanner_setup = awaited(base.Scanner.setup)
+def _swallows(stmt, call):
+    """`if ...: try: <call> except Exception: logger...` - the statement cannot raise (as far as `except Exception` goes)"""
+    tr = [x for x in ast.walk(stmt) if isinstance(x, ast.Try)]
+    if len(tr) != 1 or call not in calls_in(tr[0]):
+        return False
+    hs = tr[0].handlers
+    return len(hs) == 1 and hs[0].type is not None and ast.unparse(hs[0].type) == "Exception" and not any(
+        isinstance(n, ast.Raise) for n in ast.walk(hs[0]))
+
+
+def scanner_setup_token(st):
+    calls = calls_in(st)
+    if isinstance(st, ast.If) and "PowerSupply.connect" in calls:
+        return "power", ast.unparse(st.test)
+    if isinstance(st, ast.If) and "Dumpcap.start" in calls:
+        # which() None -> RuntimeError; start(); None -> logged; else sync()
+        if calls.index("shutil.which") > calls.index("Dumpcap.start") or "self.dumpcap.sync" not in calls:
+            die("dumpcap block of Scanner.setup: which / start / sync not found in this order")
+        rs = [n for n in ast.walk(st) if isinstance(n, ast.Raise)]
+        if len(rs) != 1 or "RuntimeError" not in ast.unparse(rs[0]):
+            die("dumpcap block of Scanner.setup: RuntimeError for a missing binary not found")
+        inner = [n for n in st.body if isinstance(n, ast.If) and "self.dumpcap is None" in ast.unparse(n.test)]
+        if len(inner) != 1 or "self.dumpcap.sync" not in calls_in(ast.Module(body=inner[0].orelse, type_ignores=[])):
+            die("dumpcap block of Scanner.setup: `if self.dumpcap is None: ... else: sync()` not found")
+        return "dumpcap", ast.unparse(st.test)
+    if isinstance(st, ast.Assign) and ast.unparse(st.targets[0]) == "self.transport" and any(
+            c.endswith(".connect") and "load_transport" in c for c in calls):
+        return "connect", ""
+    return "unknown<" + ast.unparse(st).split("\n")[0][:60] + ">", ""
+
+
+def scanner_teardown_token(st):
+    src = ast.unparse(st)
+    if src == "await self.transport.close()":
+        return "close", ""
+    if isinstance(st, ast.If) and calls_in(st) == ["self.dumpcap.stop"]:
+        return "dcStop", ast.unparse(st.test)
+    return "unknown<" + src.split("\n")[0][:60] + ">", ""
+
+
+def uds_setup_token(st):
+    src = ast.unparse(st)
+    calls = calls_in(st)
+    if src == "await super().setup()":
+        return "super", ""
+    if isinstance(st, ast.Assign) and ast.unparse(st.targets[0]) == "self.ecu" and "load_ecu" in calls:
+        return "ecu:new", ""
+    if src == "self.ecu.db_handler = self.db_handler":
+        return "ecu:db", ""
+    if isinstance(st, ast.If) and "self.db_handler.insert_scan_run" in calls:
+        if not _swallows(st, "self.db_handler.insert_scan_run"):
+            die("UDSScanner.setup: insert_scan_run is not wrapped in try/except Exception")
+        return "db:scan_run", ast.unparse(st.test)
+    if isinstance(st, ast.If) and "ecu_reset" in ast.unparse(st.test):
+        return "ecu_reset", ast.unparse(st.test)
+    if isinstance(st, ast.If) and calls == ["self.ecu.wait_for_ecu"]:
+        return "ping", ast.unparse(st.test)
+    if src == "await self.ecu.connect()":
+        return "ecuConnect", ""
+    if isinstance(st, ast.If) and calls == ["self.ecu.start_cyclic_tester_present"]:
+        return "tpStart", ast.unparse(st.test)
+    if isinstance(st, ast.If) and calls and calls[0] == "self.ecu.properties":
+        return "propsPre", ast.unparse(st.test)
+    return "unknown<" + src.split("\n")[0][:60] + ">", ""
+
+
+def uds_teardown_token(st):
+    src = ast.unparse(st)
+    calls = calls_in(st)
+    if isinstance(st, ast.If) and calls and calls[0] == "self.ecu.properties":
+        if not _swallows(st, "self.db_handler.complete_scan_run"):
+            die("UDSScanner.teardown: complete_scan_run is not wrapped in try/except Exception")
+        return "propsPost", ast.unparse(st.test)
+    if isinstance(st, ast.If) and calls == ["self.ecu.stop_cyclic_tester_present"]:
+        return "tpStop", ast.unparse(st.test)
+    if src == "await self.ecu.transport.close()":
+        return "close", ""
+    if src == "await super().teardown()":
+        return "super", ""
+    return "unknown<" + src.split("\n")[0][:60] + ">", ""
+
+
+scanner_setup_src = [scanner_setup_token(st) for st in _stmts(base.Scanner.setup)]
+scanner_td_src = [scanner_teardown_token(st) for st in _stmts(base.Scanner.teardown)]
+uds_setup_src = [uds_setup_token(st) for st in _stmts(cuds.UDSScanner.setup)]
+uds_td_src = [uds_teardown_token(st) for st in _stmts(cuds.UDSScanner.teardown)]
+scanner_td = [c for c in calls_in(fn_ast(base.Scanner.teardown)) if not c.startswith("logger.") and c != "super"]
+uds_td = [c for c in calls_in(fn_ast(cuds.UDSScanner.teardown)) if not c.startswith("logger.") and c != "super"]
+scanner_disconnects = "self.db_handler.disconnect" in scanner_td
 for need, where, name in [("self.transport.close", scanner_td, "Scanner.teardown"), ("self.ecu.transport.close", uds_td, "UDSScanner.teardown"),
                           ("super().teardown", uds_td, "UDSScanner.teardown")]:
     if need not in where:
         die(f"{need} not called in {name}")
 if uds_td[-1] != "super().teardown":
     die("UDSScanner.teardown does not end with super().teardown()")
-if not any(c.endswith(".connect") and "load_transport" in c for c in scanner_setup):
+if "connect" not in [t for t, _ in scanner_setup_src]:
     die("Scanner.setup does not connect the transport")
-scanner_disconnects = "self.db_handler.disconnect" in scanner_td
+
+# ---- the lock: open + flock, OSError -> OSFILE (checked in token()); a held lock is waited for ----------------------
+aq = fn_ast(base.FlockMixin._aquire_flock)
+tr = [x for x in aq.body if isinstance(x, ast.Try)]
+lock_waits = False
+if len(tr) == 1 and len(tr[0].handlers) == 1 and ast.unparse(tr[0].handlers[0].type) == "BlockingIOError":
+    first_stmt = ast.unparse(tr[0].body[0]) if tr[0].body else ""
+    hcalls = calls_in(tr[0].handlers[0])
+    if "LOCK_EX | fcntl.LOCK_NB" in first_stmt and "asyncio.to_thread" in hcalls and not any(
+            isinstance(n, (ast.Raise, ast.Return)) for n in ast.walk(tr[0].handlers[0])):
+        hsrc = ast.unparse(tr[0].handlers[0])
+        lock_waits = "fcntl.flock, self._lock_file_fd, fcntl.LOCK_EX)" in hsrc
+if not tr:
+    die("_aquire_flock: try / except BlockingIOError not found")
+
+# ---- prepare_artifacts_dir: statements, mkdir flags, LATEST ---------------------------------------------------------
+pa = fn_ast(base.BaseCommand.prepare_artifacts_dir)
+if not (len(pa.body) == 1 and isinstance(pa.body[0], ast.If) and ast.unparse(pa.body[0].test) == "self.config.artifacts_base is None"
+        and ast.unparse(pa.body[0].body[0]) == "return None"):
+    die("prepare_artifacts_dir: `if self.config.artifacts_base is None: return None else: ...` not found")
+art_steps = []
+mkdir_exist_ok = None
+for st in pa.body[0].orelse:
+    src = ast.unparse(st)
+    calls = calls_in(st)
+    if isinstance(st, ast.Assign) and ast.unparse(st.targets[0]) == "command_dir" and "self.config.artifacts_base.joinpath" in calls:
+        art_steps.append("command_dir")
+    elif isinstance(st, ast.Assign) and ast.unparse(st.targets[0]) == "_run_dir" and "datetime.now" in src and "%Y%m%d-%H%M%S.%f" in src:
+        art_steps.append("run_dir_name")
+    elif isinstance(st, ast.Assign) and ast.unparse(st.targets[0]) == "artifacts_dir" and "command_dir.joinpath" in calls:
+        art_steps.append("artifacts_dir")
+    elif isinstance(st, ast.Expr) and calls == ["artifacts_dir.mkdir"]:
+        kws = {k.arg: ast.unparse(k.value) for k in st.value.keywords}
+        if st.value.args or kws.get("parents") != "True" or set(kws) - {"parents", "exist_ok"}:
+            die(f"artifacts_dir.mkdir arguments {ast.unparse(st)}")
+        mkdir_exist_ok = kws.get("exist_ok", "False") != "False"
+        art_steps.append("mkdir")
+    elif isinstance(st, ast.Expr) and "self._dump_environment" in calls:
+        art_steps.append("dump_env")
+    elif isinstance(st, ast.Expr) and calls == ["self._add_latest_link"]:
+        art_steps.append("latest_link")
+    elif isinstance(st, ast.Return) and src == "return artifacts_dir.absolute()":
+        art_steps.append("return")
+    else:
+        art_steps.append("unknown<" + src.split("\n")[0][:60] + ">")
+if mkdir_exist_ok is None:
+    die("artifacts_dir.mkdir not found in prepare_artifacts_dir")
+ll = ast.unparse(fn_ast(base.BaseCommand._add_latest_link))
+latest_last_by_name = ("path.glob('run-*')" in ll and "dirs.sort(key=lambda x: x.name)" in ll and "dirs[-1]" in ll
+                       and "symlink.unlink(missing_ok=True)" in ll and "symlink.symlink_to(latest_dir)" in ll)
 
 # ---- DBHandler.connect: does a failure after aiosqlite.connect() close the connection again? ---------------
 import gallia.db.handler as dbh  # noqa: E402
@@ -261,6 +398,28 @@ def runShape : List String := {slist(run_shape)}
 def scannerTeardown : List String := {slist(scanner_td)}
 def udsTeardown : List String := {slist(uds_td)}
 def scannerTeardownDisconnectsDb : Bool := {"true" if scanner_disconnects else "false"}
+
+/-- statements of the four framework methods in source order (imports, docstrings, bare logger calls left out) -/
+def scannerSetupSrc : List String := {slist([t for t, _ in scanner_setup_src])}
+def udsSetupSrc : List String := {slist([t for t, _ in uds_setup_src])}
+def udsTeardownSrc : List String := {slist([t for t, _ in uds_td_src])}
+def scannerTeardownSrc : List String := {slist([t for t, _ in scanner_td_src])}
+
+/-- the `if` guarding each of them ("" = unconditional) -/
+def guards : List (String × String) :=
+  [{", ".join("(" + lean_str(w + ":" + t) + ", " + lean_str(g) + ")" for w, lst in [("Scanner.setup", scanner_setup_src), ("UDSScanner.setup", uds_setup_src), ("UDSScanner.teardown", uds_td_src), ("Scanner.teardown", scanner_td_src)] for t, g in lst)}]
+
+/-- `_aquire_flock`: non-blocking attempt, on BlockingIOError a blocking `flock` in a thread (the run waits) -/
+def lockWaits : Bool := {"true" if lock_waits else "false"}
+
+/-- statements of `prepare_artifacts_dir` (artifacts_base given) in source order -/
+def artifactsSteps : List String := {slist(art_steps)}
+
+/-- `artifacts_dir.mkdir(parents=True, exist_ok=...)` -/
+def mkdirExistOk : Bool := {"true" if mkdir_exist_ok else "false"}
+
+/-- `_add_latest_link`: LATEST is re-pointed at the name-wise last `run-*` directory -/
+def latestIsLastByName : Bool := {"true" if latest_last_by_name else "false"}
 
 /-- `DBHandler.connect` closes the connection again when the pragmas / schema / version check fail -/
 def dbConnectClosesOnFailure : Bool := {"true" if connect_cleans else "false"}
